@@ -15,7 +15,7 @@ RULE = ('shapes (cells x magnitude bins) in {1x1, 2x1, 1x3, 2x2} (thorough + 3x2
         'assignments over {0,1,2,5} (3x2: {0,1,2}); every (forecast, catalog) pair goes through the public L, CL, S and M '
         'tests with real GriddedForecast / CSEPCatalog objects; one simulated catalog per call is observed (spy) and its '
         'test-distribution entry recomputed; for N_obs<=2 every tuple of uniform draws over the boundary alphabet is '
-        'injected. A pair is non-trivial iff some bin has count>=2 or some rate is 0 or N_obs != round(N_fore); distinct '
+        'injected; structured large inputs (50-128 bins, hundreds of events, counts up to 100). A pair is non-trivial iff some bin has count>=2 or some rate is 0 or N_obs != round(N_fore); distinct '
         'by construction.')
 ASSUMPTIONS = ['reference = sum_k [w ln(lam) - lgamma(w+1)] - total with math.log/lgamma/fsum; tolerance 1e-10 relative to '
                'the sum of absolute terms', 'forecasts with zero total are outside the property (normalisation undefined)']
@@ -37,6 +37,10 @@ def cases(tier, seed):
         rlist = [list(r) for r in itertools.product([0.0, 1e-3, 2.0], repeat=6) if any(x > 0 for x in r)]
         for chunk in space.chunks(rlist, 4):
             yield dict(kind='pairs', shape=[3, 2], rates=chunk, counts_alpha=[0, 1, 2])
+    # structured LARGE inputs (size-dependent code paths): many bins, many events, counts far above the small alphabet
+    for shape in ([10, 5], [37, 3], [1, 64], [128, 1]):
+        for pattern in range(4):
+            yield dict(kind='large', shape=shape, pattern=pattern)
     # simulated entries under every draw tuple (N_obs <= 2)
     rl = [list(r) for r in itertools.product([0.0, 0.5, 2.0, 1e-12], repeat=4) if any(x > 0 for x in r)]
     for chunk in space.chunks(rl, 8):
@@ -151,6 +155,31 @@ def run_case(case):
     nc, nm = shape
     n = nc * nm
     reg, origins, mags = fixtures.grid_setup(nc, nm)
+    if case['kind'] == 'large':
+        # rates and counts from closed-form patterns (no randomness): rate_i spans 1e-12..1e3, counts i mod m with spikes
+        n = nc * nm
+        pat = case['pattern']
+        rates = [[1e-3 * (1 + (i * 7) % 13), 10.0 ** (-12 + (i % 16)), 0.5 + (i % 5), (0.0 if i % 11 == 3 else 2.0 + i)][pat] for i in range(n)]
+        counts = [[(i % 3), (7 if i % 10 == 0 else 0), (i % 7) + (100 if i == n // 2 else 0), (0 if rates[i] == 0 else (i % 2) * 6)][pat] for i in range(n)]
+        if pat == 3:
+            counts[3 if n > 3 else 0] = 0
+        fc = fixtures.gridded_forecast(numpy.array(rates, dtype=float).reshape(nc, nm), reg, mags)
+        cat = fixtures.catalog(fixtures.events_from_counts(numpy.array(counts).reshape(nc, nm), origins, mags), region=reg)
+        evals += judge_pair(shape, rates, counts, cat, fc, None, failures, hsh)
+        # one catalog with an event in a zero-rate bin (pattern 3 has zero-rate bins)
+        if pat == 3:
+            zc = list(counts)
+            zc[3 if n > 3 else 0] = 2
+            cat = fixtures.catalog(fixtures.events_from_counts(numpy.array(zc).reshape(nc, nm), origins, mags), region=reg)
+            evals += judge_pair(shape, rates, zc, cat, fc, None, failures, hsh)
+        seen, uniq = set(), []
+        for f in failures:
+            if f['signature'] not in seen:
+                seen.add(f['signature'])
+                f['case'] = dict(case)       # replay the whole structured case
+                uniq.append(f)
+        return result(evals=evals, states=2, transitions=evals, nontrivial=1, failures=uniq, digest=hsh.hexdigest(),
+                      sample=dict(shape=list(shape), pattern=pat, n_events=int(sum(counts)), first_rates=rates[:4]))
     if case['kind'] == 'lseq':
         case = dict(case, kind='sims_lseq_only')
     if case['kind'] in ('pairs', 'single'):
